@@ -18,6 +18,11 @@ items
   * http_error_message_not_truncated           _truncate_error_message on a message that straddles the cap
   * unary_shell_one_record_status_matches      the real RpcServer._serve_unary (wire writers stubbed):
                                                exactly one record, status == what was written to the client
+  * http_stream_records_share_stream_id        two-request HTTP histories through the real _run_stream_init_sync /
+                                               _run_stream_exchange_sync / _unpack_and_recover_state /
+                                               _dispatch_telemetry and the real call-state cache (hit, other worker,
+                                               cache disabled, expired entry): one valid record per request, all
+                                               with the stream id minted at init
 """
 
 from __future__ import annotations
@@ -45,15 +50,17 @@ BOUNDS = (
     "counters any int >= 0; long messages: (cap-2) fixed chars + any tail len<=3" % _L
 )
 OUTSIDE = (
-    "which shells call _emit_access_log and how often, beyond the pipe unary shell (stream turns, HTTP shells, "
-    "cancel: covered only by their own harnesses C04/C10); VgiAccessLogFormatter size shedding; json.dumps of the "
+    "the bodies of the HTTP turn helpers (_run_http_producer_turn/_run_http_exchange_turn/_run_http_*_init are stubs "
+    "reporting through `outcome`), the pipe stream shell and the HTTP unary/upload shells (C04/C10/C15 harnesses); "
+    "histories longer than init + one continuation; VgiAccessLogFormatter size shedding; json.dumps of the "
     "payload; request_data Arrow round trip; requests rejected before dispatch (no record by design); "
     "messages between len %d and the cap" % _L
 )
 ASSUMPTIONS = [
     "call-site contract of _emit_access_log, read off the dispatch shells: status=='ok' => error_type=='' and "
     "error_message==''; status=='error' => error_message is str(exc) or _truncate_error_message(exc); "
-    "method_type=='stream' => _current_stream_id is set (32 hex); method_type=='unary' => _current_request_batch is set; "
+    "method_type=='stream' => _current_stream_id is set (32 hex) — decided, not assumed, for the HTTP stream shells by "
+    "item http_stream_records_share_stream_id; method_type=='unary' => _current_request_batch is set; "
     "cancelled => stream call with status ok (the cancel branch of every shell breaks out before state.process)",
     "vgi_rpc.access logger := stub (INFO enabled, DEBUG symbolic) that builds the LogRecord with the real "
     "logging.Logger.makeRecord — the worker disables the logging module itself",
@@ -324,14 +331,14 @@ _REPLAY_SCHEMA = _pa.schema([_pa.field("i", _pa.int64())])
 
 @_dataclass
 class _GenState(ProducerState):
-    """Replay service: producer emitting 4 batches, or failing on its second turn."""
+    """Replay service: producer emitting 4 batches, or failing on its third batch (a continuation request under the small HTTP response cap)."""
 
     msg: str = ""
     fail: bool = False
     n: int = 0
 
     def produce(self, out: OutputCollector, ctx: CallContext) -> None:
-        if self.fail and self.n >= 1:
+        if self.fail and self.n >= 2:
             raise ValueError(self.msg) if self.msg != "" else ValueError()
         out.emit_pydict({"i": [self.n]})
         self.n += 1
@@ -360,7 +367,7 @@ class _ReplayImpl:
         return Stream(output_schema=_REPLAY_SCHEMA, state=_GenState(msg=self.msg, fail=self.fail))
 
 
-def _real_run(transport: str, debug: bool, kind: str, fail: bool, msg: str, cancel: bool = False, bad_result: object = False) -> tuple[list, str]:
+def _real_run(transport: str, debug: bool, kind: str, fail: bool, msg: str, cancel: bool = False, bad_result: object = False, cache_miss: bool = False) -> tuple[list, str]:
     """Un-stubbed public API: a real RpcServer served over an in-memory pipe or the real HTTP app (falcon test client),
     real logging with the real VgiAccessLogFormatter.  Returns (parsed vgi_rpc.access records of the call, what the client saw)."""
     import warnings
@@ -414,7 +421,12 @@ def _real_run(transport: str, debug: bool, kind: str, fail: bool, msg: str, canc
                 from vgi_rpc.http import http_connect
                 from vgi_rpc.http._testing import make_sync_client
 
-                client = make_sync_client(RpcServer(P, Impl()), token_key=b"k" * 32)
+                extra: dict = {}
+                if kind == "stream":
+                    extra["max_response_bytes"] = 300  # forces the producer into /exchange continuations
+                if cache_miss:
+                    extra["call_state_cache_entries"] = 0  # every continuation is rebuilt from the echoed call token
+                client = make_sync_client(RpcServer(P, Impl()), token_key=b"k" * 32, **extra)
                 with http_connect(P, client=client) as proxy:
                     drive(proxy)
     finally:
@@ -513,7 +525,7 @@ def _check_error_fields(is_err: bool, etype: str, msg: str, via_truncate: bool, 
 def error_fields_schema_valid_any_message(is_err: bool, etype: str, msg: str, via_truncate: bool, stream: bool, has_sid: bool, cancelled: bool, via_sink: bool) -> bool:
     """
     pre: len(etype) <= _L and len(msg) <= _L
-    pre: has_sid or not stream
+    pre: has_sid == stream
     pre: (stream and not is_err) or not cancelled
     post: _
     """
@@ -528,7 +540,7 @@ def error_fields_schema_valid_any_message(is_err: bool, etype: str, msg: str, vi
 def error_fields_schema_valid_nonempty_message(is_err: bool, etype: str, msg: str, via_truncate: bool, stream: bool, has_sid: bool, cancelled: bool, via_sink: bool) -> bool:
     """
     pre: len(etype) <= _L and 1 <= len(msg) <= _L
-    pre: has_sid or not stream
+    pre: has_sid == stream
     pre: (stream and not is_err) or not cancelled
     post: _
     """
@@ -794,3 +806,308 @@ def unary_shell_one_record_status_matches(outcome: int, msg: str) -> bool:
         if msg != "" and p.get("error_message") != msg:
             return False
     return True
+
+
+# ---------------------------------------------------------------------------
+# (5) HTTP stream histories: /init on one worker, a continuation / exchange turn / cancel on the same or another
+#     worker — the real dispatch shells (_run_stream_init_sync, _run_stream_exchange_sync,
+#     _unpack_and_recover_state, _dispatch_telemetry) with the real call-state cache; every record of the
+#     stream must be schema-valid and carry the stream id minted at init, whether the call is served from the
+#     cache or rebuilt from the client-echoed call token.  (This discharges, for the HTTP shells, the call-site
+#     assumption "method_type=='stream' => _current_stream_id is set" that items (1)/(2) rely on.)
+# ---------------------------------------------------------------------------
+
+import contextlib as _contextlib
+from io import BytesIO as _BytesIO
+
+from vgi_rpc.http._common import _RpcHttpError
+from vgi_rpc.http.server import _app_stream as hs
+from vgi_rpc.http.server import _state_token as stok
+from vgi_rpc.metadata import CALL_STATE_KEY, CANCEL_KEY, STATE_KEY
+from vgi_rpc.rpc import _EMPTY_SCHEMA
+
+_HIST: dict = {"now": 1000, "auth": None, "turn_fails": False, "minted": [], "init_kwargs": []}
+_EXCHANGE_SCHEMA = _pa.schema([_pa.field("v", _pa.int64())])
+
+
+class _HistClock:
+    """time.time() as an integer clock the condition controls (cache TTL arithmetic is + and <= only)."""
+
+    def time(self) -> int:
+        return _HIST["now"]
+
+    def monotonic(self) -> float:
+        return 5000.0
+
+    def __getattr__(self, name: str) -> object:
+        raise HarnessModelError(f"time.{name} not modelled")
+
+
+class _OpaqueCallToken:
+    """Ideal AEAD box for the call token: remembers exactly what _mint_call_token was asked to seal."""
+
+    def __init__(self, call_state: object, output_schema: object, input_schema: object, auth: object, stream_id: str, method_name: object, created_at: int) -> None:
+        self.call_state, self.output_schema, self.input_schema = call_state, output_schema, input_schema
+        self.auth, self.stream_id, self.method_name, self.created_at = auth, stream_id, method_name, created_at
+
+
+class _OpaqueCursor:
+    """Ideal AEAD box for the cursor token: state bytes + the authenticated call id."""
+
+    def __init__(self, state_bytes: bytes, call_id: bytes) -> None:
+        self.state_bytes, self.call_id = state_bytes, call_id
+
+
+def _stub_mint_call_token(call_state, output_schema, input_schema, token_key, auth, stream_id, *, method_name=None, now=None):  # noqa: ANN001
+    tok = _OpaqueCallToken(call_state, output_schema, input_schema, auth, stream_id, method_name, _HIST["now"])
+    _HIST["minted"].append(tok)
+    return tok, b"CALL-ID-1", b""
+
+
+def _stub_open_cursor_token(token, token_key, aad, token_ttl=0):  # noqa: ANN001
+    if not isinstance(token, _OpaqueCursor):
+        raise _RpcHttpError(RuntimeError("Malformed state token"), status_code=hs.HTTPStatus.BAD_REQUEST)
+    return token.state_bytes, token.call_id
+
+
+def _stub_resolve_call_from_token(app, call_token, expected_call_id, state_info, auth, method_name):  # noqa: ANN001
+    # contract of the real function: open + verify the client-echoed call token, return what it sealed
+    if not isinstance(call_token, _OpaqueCallToken) or call_token.method_name != method_name:
+        raise _RpcHttpError(RuntimeError("call token missing or not valid for this call"), status_code=hs.HTTPStatus.BAD_REQUEST)
+    return stok._ResolvedCall(call_token.call_state, call_token.output_schema, call_token.input_schema, call_token.stream_id, call_token.created_at)
+
+
+class _HistState:
+    def bind_call_state(self, call_state: object) -> None:
+        return None
+
+    def rehydrate(self, implementation: object) -> None:
+        return None
+
+    def on_cancel(self, ctx: object) -> None:
+        return None
+
+
+def _stub_resolve_state_cls(state_bytes, state_info):  # noqa: ANN001
+    return _HistState, state_bytes
+
+
+def _stub_deserialize_state_bytes(state_cls, raw, ipc_validation):  # noqa: ANN001
+    return state_cls()
+
+
+def _stub_turn(app, **kw):  # noqa: ANN001
+    """_run_http_producer_turn / _run_http_exchange_turn: the turn itself is not the subject; it reports through
+    `outcome` exactly as the real helpers do (status/error fields on failure) and returns a response body."""
+    outcome = kw["outcome"]
+    if _HIST["turn_fails"]:
+        outcome.status = "error"
+        outcome.error_type = "ValueError"
+        outcome.error_message = "turn failed"
+    return _BytesIO(b"")
+
+
+def _stub_init_tail(app, **kw):  # noqa: ANN001
+    """_run_http_producer_init / _run_http_exchange_init: records what the shell hands over (call token, ids)."""
+    _HIST["init_kwargs"].append(kw)
+    return _BytesIO(b"")
+
+
+class _HistSink:
+    def __init__(self, server_id: str = "") -> None:
+        self.server_id = server_id
+
+
+class _HistReader:
+    def __init__(self, request: "_HistRequest", validation: object = None) -> None:
+        self._request = request
+
+    def read_next_batch_with_custom_metadata(self) -> tuple:
+        return self._request.batch, self._request.metadata
+
+
+class _HistIpc:
+    @staticmethod
+    def open_stream(stream: object) -> object:
+        return stream
+
+
+class _HistRequest:
+    def __init__(self, metadata: dict) -> None:
+        self.batch = None
+        self.metadata = metadata
+
+
+def _hist_auth() -> tuple:
+    return _HIST["auth"], {"remote_addr": "10.0.0.7"}
+
+
+_hist_telemetry = _contextlib.contextmanager(reglobalize(hs._dispatch_telemetry.__wrapped__, _emit_access_log=_emit, time=_HistClock()))
+_hist_unpack = reglobalize(
+    hs._unpack_and_recover_state, _open_cursor_token=_stub_open_cursor_token, _resolve_call_from_token=_stub_resolve_call_from_token,
+    _resolve_state_cls=_stub_resolve_state_cls, _deserialize_state_bytes=_stub_deserialize_state_bytes, _compute_aad=lambda auth: b"", time=_HistClock(),
+)  # fmt: skip
+_hist_exchange = reglobalize(
+    hs._run_stream_exchange_sync, _unpack_and_recover_state=_hist_unpack, _dispatch_telemetry=_hist_telemetry, ipc=_HistIpc, ValidatedReader=_HistReader,
+    _get_auth_and_metadata=_hist_auth, _record_input=lambda batch: None, _run_http_producer_turn=_stub_turn, _run_http_exchange_turn=_stub_turn,
+    new_ipc_stream=_stub_new_ipc_stream, _ClientLogSink=_HistSink,
+)  # fmt: skip
+_hist_init = reglobalize(
+    hs._run_stream_init_sync, _dispatch_telemetry=_hist_telemetry, _read_request=lambda stream, validation, external: ("gen", {}),
+    _deserialize_params=lambda *a, **k: None, _validate_call_signature=lambda *a, **k: None, _validate_params=lambda *a, **k: None,
+    _get_auth_and_metadata=_hist_auth, _ClientLogSink=_HistSink, _mint_call_token=_stub_mint_call_token, time=_HistClock(),
+    _run_http_producer_init=_stub_init_tail, _run_http_exchange_init=_stub_init_tail,
+)  # fmt: skip
+_HIST_STUBS = _STUBS + [
+    "call/cursor tokens := ideal AEAD boxes (_mint_call_token/_open_cursor_token/_resolve_call_from_token record and return exactly what was sealed)",
+    "_read_request/_deserialize_params/_validate_* := accept; request reader := fake yielding the continuation's metadata",
+    "_run_http_producer_turn/_run_http_exchange_turn/_run_http_*_init := turn bodies reporting through `outcome`",
+    "time := integer clock controlled by the condition; the call-state cache is the real _CallStateCache",
+]
+
+
+class _HistResult:
+    def __init__(self, producer: bool) -> None:
+        self.call_state = None
+        self.output_schema = _EXCHANGE_SCHEMA
+        self.input_schema = _EMPTY_SCHEMA if producer else _EXCHANGE_SCHEMA
+        self.state = _HistState()
+        self.header = None
+
+
+class _HistImpl:
+    def __init__(self, producer: bool, init_fails: bool) -> None:
+        self._producer, self._init_fails = producer, init_fails
+
+    def gen(self, **kwargs: object) -> _HistResult:
+        if self._init_fails:
+            raise ValueError("init failed")
+        return _HistResult(self._producer)
+
+
+class _StreamMethodType:
+    value = "stream"
+
+
+class _HistInfo:
+    name = "gen"
+    method_type = _StreamMethodType()
+    param_types: dict = {}
+    param_defaults: dict = {}
+    params_schema = None
+    header_type = None
+
+
+class _HistServer:
+    server_id = "srv1"
+    protocol_name = "Proto"
+    server_version = "1.0"
+    protocol_hash = _HASH
+    ipc_validation = None
+    external_config = None
+    transport_kind = None
+    ctx_methods: tuple = ()
+    _protocol_version_parts = None
+    _dispatch_hook = None
+
+    def __init__(self, impl: object) -> None:
+        self.implementation = impl
+        self.methods = {"gen": _HistInfo()}
+
+
+class _HistApp:
+    """One HTTP worker: its own real call-state cache, the shared token key."""
+
+    _token_key = b"k" * 32
+
+    def __init__(self, impl: object, cache_entries: int, ttl: int) -> None:
+        self._server = _HistServer(impl)
+        self._state_types = {"gen": _HistState}
+        self._token_ttl = ttl
+        self._call_state_cache = stok._CallStateCache(max_entries=cache_entries, ttl=ttl if ttl > 0 else 3600)
+        self._max_response_bytes = None
+        self._max_externalized_response_bytes = None
+
+
+def _collect_new_records() -> list:
+    out = [_FORMATTER._build_payload(r) for r in _ACCESS.records]
+    del _ACCESS.records[:]
+    return out
+
+
+def _replay_history(args: dict) -> str | None:
+    """Un-stubbed: real app(s) behind the falcon test client; a producer stream forced into continuations by a small
+    response cap; the continuation worker's call-state cache misses when the counterexample's does."""
+    miss = bool(args.get("other_worker")) or bool(args.get("no_cache")) or (args.get("ttl", 1) > 0 and args.get("dt", 0) >= args.get("ttl", 1))
+    cancel = args.get("kind") == 2
+    fail = args.get("kind") == 1
+    recs, seen = _real_run("http", False, "stream", fail, "turn failed", cancel, cache_miss=miss)
+    return _judge_real("http", "stream", fail, "turn failed", cancel, recs, seen, " (continuation served from %s)" % ("the echoed call token: call-state cache miss" if miss else "the call-state cache"))
+
+
+@cond(q=60, t=180, stubs=_HIST_STUBS, replay=_replay_history, signature=lambda args, conc: "C34:http-stream-record-stream-id",
+      encoded=[hs._run_stream_init_sync, hs._run_stream_exchange_sync, hs._unpack_and_recover_state, hs._dispatch_telemetry, stok._CallStateCache.get, stok._CallStateCache.put, srv._emit_access_log],
+      bound="history = /init (ok or failing; producer or exchange stream) then one of {turn ok, turn failing, cancel}; continuation on the same worker or another one (shared key), "
+            "call-state cache enabled or call_state_cache_entries=0, token ttl any int 0..3600, clock advance any int >= 0 (cache entry live or expired)")
+def http_stream_records_share_stream_id(init_fails: bool, producer: bool, kind: int, other_worker: bool, no_cache: bool, ttl: int, dt: int) -> bool:
+    """
+    pre: 0 <= kind <= 2 and 0 <= ttl <= 3600 and dt >= 0
+    post: _
+    """
+    _HIST["now"] = 1000
+    _HIST["auth"] = AuthContext(domain="jwt", authenticated=True, principal="alice")
+    _HIST["turn_fails"] = False
+    del _HIST["minted"][:]
+    del _HIST["init_kwargs"][:]
+    del _ACCESS.records[:]
+    impl = _HistImpl(producer, init_fails)
+    worker_a = _HistApp(impl, 0 if no_cache else 8, ttl)
+    sid_tok = common._current_stream_id.set("")
+    rb_tok = common._current_request_batch.set(b"ARROW-IPC-BYTES")
+    try:
+        # ---- request 1: POST /gen/init on worker A --------------------------------------------------------
+        init_raised = False
+        try:
+            _hist_init(worker_a, "gen", _HistInfo(), object())
+        except _RpcHttpError:
+            init_raised = True
+        except Exception:  # noqa: BLE001
+            return False
+        first = _collect_new_records()
+        if len(first) != 1 or not _VALID(first[0]) or first[0]["method_type"] != "stream":
+            return False
+        if (first[0]["status"] == "error") != init_fails or init_raised != init_fails:
+            return False
+        if init_fails:
+            return True  # no stream came into being
+        stream_id = first[0].get("stream_id")
+        if len(_HIST["minted"]) != 1 or _HIST["minted"][0].stream_id != stream_id or len(_HIST["init_kwargs"]) != 1:
+            return False  # the id in the record is the id sealed into the stream's call token
+        call_token = _HIST["init_kwargs"][0]["call_token"]
+        # ---- request 2: POST /gen/exchange (new request context: the middleware resets the contextvars) ----
+        common._current_stream_id.set("")
+        common._current_request_batch.set(None)
+        _HIST["now"] = 1000 + dt
+        _HIST["turn_fails"] = kind == 1
+        worker_b = _HistApp(impl, 0 if no_cache else 8, ttl) if other_worker else worker_a
+        md = {STATE_KEY: _OpaqueCursor(b"cursor-state", b"CALL-ID-1"), CALL_STATE_KEY: call_token}
+        if kind == 2:
+            md[CANCEL_KEY] = b"1"
+        try:
+            _hist_exchange(worker_b, "gen", _HistRequest(md))
+        except Exception:  # noqa: BLE001
+            return False  # the client echoed a valid call token: hit or miss, the turn must be served
+        second = _collect_new_records()
+        if len(second) != 1:
+            return False
+        rec = second[0]
+        if not _VALID(rec) or rec["method_type"] != "stream":
+            return False
+        if rec.get("stream_id") != stream_id:
+            return False  # all records of one stream share one stream_id
+        if (rec.get("cancelled") is True) != (kind == 2):
+            return False
+        return (rec["status"] == "error") == (kind == 1)
+    finally:
+        common._current_request_batch.reset(rb_tok)
+        common._current_stream_id.reset(sid_tok)
